@@ -16,7 +16,7 @@ RESP = 'smbus_response::MCTPSMBusContextResponse'
 CTX = "smbus::MCTPSMBusContext::<'_>"
 TRAIT = 'mctp_traits::SMBusMCTPRequestResponse'
 
-ENGINE_VERSION = '19'
+ENGINE_VERSION = '22'
 
 
 def vendor_format_domain(name):
@@ -106,6 +106,8 @@ class Analysis:
             try:
                 with open(fn, 'rb') as f:
                     r = pickle.load(f)
+                import terms
+                terms.OPS.update(r.get('ops', {}))
                 self._mem[name] = r['val']
                 self._acc(r['stats'])
                 return r['val']
@@ -115,7 +117,8 @@ class Analysis:
         try:
             tmp = fn + '.%d.tmp' % os.getpid()
             with open(tmp, 'wb') as f:
-                pickle.dump({'val': val, 'stats': stats}, f, protocol=pickle.HIGHEST_PROTOCOL)
+                import terms
+                pickle.dump({'val': val, 'stats': stats, 'ops': dict(terms.OPS)}, f, protocol=pickle.HIGHEST_PROTOCOL)
             os.replace(tmp, fn)
         except Exception:
             pass
@@ -131,7 +134,8 @@ class Analysis:
         s['entries'] += 1
         s['leaves'] += stats['leaves']
 
-    GLOBAL_STEP_BUDGET = 12000000
+    GLOBAL_STEP_BUDGET = 5000000
+    MAX_LEAVES_PER_ENTRY = 1000
 
     def compute(self, spec, make_args=None, init_know=None):
         it = Interp(self.prog)
@@ -157,13 +161,34 @@ class Analysis:
             lf.entry = spec.get('label') or spec['key']
             lf.notes = []
             leaves, na = [lf], 0
+        if len(leaves) > self.MAX_LEAVES_PER_ENTRY:
+            # path explosion (e.g. a table-driven checksum indexed by symbolic bytes): fail closed as one unanalysable leaf
+            n_ = len(leaves)
+            lf = leaves[0]
+            lf.kind = 'unanalysable'
+            lf.value = None
+            lf.facts = lf.facts[:na]
+            lf.effects = []
+            lf.heap = {}
+            sp = self.prog.instances[spec['key']]['span']['at']
+            lf.stack = [(spec['key'], sp, sp)]
+            lf.panic = ('budget', 'path explosion: more than %d paths (%d explored) - a computation over symbolic data the analyser cannot summarise' % (self.MAX_LEAVES_PER_ENTRY, n_))
+            from terms import Know
+            k = Know()
+            for a in lf.facts:
+                try:
+                    k.assume(a)
+                except Exception:
+                    pass
+            lf.know = k
+            leaves = [lf]
         stats = dict(it.stats)
         stats['leaves'] = len(leaves)
         return (leaves, na), stats
 
     def run_custom(self, key, make_args, assume=None, hook=None, label=None):
         """Uncached interpretation with custom arguments (summary composition)."""
-        it = Interp(self.prog, max_leaves=400, total_steps=300000)
+        it = Interp(self.prog, max_leaves=400, total_steps=150000 if self.interp_stats['steps'] < self.GLOBAL_STEP_BUDGET else 10000)
         it.domain_hook = hook
         leaves, na = it.run(key, make_args, assume, label=label)
         stats = dict(it.stats)
